@@ -22,7 +22,9 @@ ChordOk(r) ==
       hasBass == r.bass # <<>>
       pb == ParseNote(r.bass)   bass == [l |-> pb.l, a |-> pb.a]
       tonic == ScaleNotes(k)[1]
-      mustAccept == InScale(k, root) /\ (hasBass => InScale(k, bass))
+      \* (r.uni: the accidentals of the text were written with the Unicode signs; that those are accepted is C11's sentence,
+      \* here only: if accepted, then read as that note)
+      mustAccept == ~r.uni /\ InScale(k, root) /\ (hasBass => InScale(k, bass))
   IN
   /\ pk.ok /\ pr.ok /\ (hasBass => pb.ok) /\ Supported(k)      \* the driver generated what it claims
   /\ r.terminated
@@ -30,8 +32,9 @@ ChordOk(r) ==
      THEN LET d == ParseInterval(r.degree) IN
           /\ d.ok /\ Names(d.iv, tonic, root)
           /\ (InScale(k, root) => \E i \in 1..7 : ScaleNotes(k)[i] = root /\ d.iv.n = i)
-          /\ r.hasBase = hasBass
-          /\ hasBass => LET b == ParseInterval(r.base) IN b.ok /\ Names(b.iv, root, bass)
+          \* (a bass on the root itself may be printed as a unison or not at all)
+          /\ (r.hasBase => LET b == ParseInterval(r.base) IN b.ok /\ Names(b.iv, root, IF hasBass THEN bass ELSE root))
+          /\ (~r.hasBase => ~hasBass \/ bass = root)
      ELSE /\ ~mustAccept                    \* scale notes are always accepted
           /\ r.stderrLen > 0                        \* an error, never a different degree
 
